@@ -1,11 +1,169 @@
 package verifrt
 
-// AccessHook is installed by the cooperative scheduler (sched build only). Access is called by generated
-// code before every statement that mentions a package-level variable of the module.
+import (
+	"bytes"
+	"fmt"
+	"hash/fnv"
+	"runtime"
+	"sort"
+	"strconv"
+	"sync"
+)
+
+// ---- cooperative scheduler (sched build): every access to a package-level variable of the module under test is a
+// scheduling point. Exactly one thread runs between two grants, so the explorer owns the interleaving.
+
+// AccessHook is installed while a scheduled run is in progress. Access is called by generated code before every
+// statement that mentions a package-level variable of the module.
 var AccessHook func(id string, w int)
 
 func Access(id string, w int) {
 	if h := AccessHook; h != nil {
 		h(id, w)
 	}
+}
+
+type req struct {
+	tid  int
+	id   string
+	w    int
+	done bool
+	res  string
+}
+
+// Step is one scheduling decision.
+type Step struct {
+	Key     string // state key before the decision
+	Enabled []int  // canonical order: running thread first if still enabled, then ascending ids
+	Chosen  int    // thread id
+	Var     string // the access the chosen thread performs next
+	W       bool
+}
+
+type SchedResult struct {
+	Trace  []Step
+	Races  map[string]string // variable -> description of two conflicting accesses by different threads
+	Result []string
+}
+
+func goid() int64 {
+	var buf [64]byte
+	n := runtime.Stack(buf[:], false)
+	f := bytes.Fields(buf[:n])
+	id, _ := strconv.ParseInt(string(f[1]), 10, 64)
+	return id
+}
+
+// RunSched executes the bodies as threads under the scheduler, following choices (indices into the canonical
+// enabled list; beyond the prefix the default choice 0 = stay on the running thread / lowest id).
+// snap renders the global state (part of the state key). A choice out of range is a replay divergence: panic.
+func RunSched(bodies []func() string, choices []int, snap func() string) *SchedResult {
+	n := len(bodies)
+	var mu sync.Mutex
+	gids := map[int64]int{}
+	reqs := make(chan req)
+	grant := make([]chan struct{}, n)
+	states := make([]*State, n)
+	for i := range grant {
+		grant[i] = make(chan struct{})
+		states[i] = NewState(nil)
+	}
+	res := &SchedResult{Races: map[string]string{}, Result: make([]string, n)}
+	AccessHook = func(id string, w int) {
+		mu.Lock()
+		tid, ok := gids[goid()]
+		mu.Unlock()
+		if !ok {
+			return // not a scheduled thread (the explorer itself)
+		}
+		reqs <- req{tid: tid, id: id, w: w}
+		<-grant[tid]
+	}
+	defer func() { AccessHook = nil }()
+	for t := 0; t < n; t++ {
+		go func(t int) {
+			mu.Lock()
+			gids[goid()] = t
+			mu.Unlock()
+			Access("<start>", 0)
+			var r string
+			func() {
+				defer func() {
+					if e := recover(); e != nil {
+						r = fmt.Sprint("PANIC ", e)
+					}
+				}()
+				r = bodies[t]()
+			}()
+			reqs <- req{tid: t, done: true, res: r}
+		}(t)
+	}
+	pending := map[int]req{}
+	live := n
+	count := make([]int, n)
+	rh := make([]uint64, n)
+	type acc struct {
+		tid int
+		w   bool
+	}
+	seen := map[string][]acc{}
+	last := -1
+	waitFor := n
+	for live > 0 {
+		for waitFor > 0 {
+			r := <-reqs
+			waitFor--
+			if r.done {
+				live--
+				res.Result[r.tid] = r.res
+			} else {
+				pending[r.tid] = r
+			}
+		}
+		if live == 0 {
+			break
+		}
+		var en []int
+		for t := range pending {
+			en = append(en, t)
+		}
+		sort.Ints(en)
+		for i, t := range en {
+			if t == last {
+				copy(en[1:i+1], en[:i])
+				en[0] = t
+			}
+		}
+		g := snap()
+		key := fmt.Sprint(count, rh, g)
+		ci := 0
+		if len(res.Trace) < len(choices) {
+			ci = choices[len(res.Trace)]
+			if ci >= len(en) {
+				panic("verifrt: replay divergence: scheduling choice out of range")
+			}
+		}
+		t := en[ci]
+		r := pending[t]
+		delete(pending, t)
+		res.Trace = append(res.Trace, Step{Key: key, Enabled: append([]int(nil), en...), Chosen: t, Var: r.id, W: r.w == 1})
+		if r.id != "<start>" {
+			for _, a := range seen[r.id] {
+				if a.tid != t && (a.w || r.w == 1) {
+					res.Races[r.id] = fmt.Sprintf("thread %d (write=%v) and thread %d (write=%v) both access %s and the library has no synchronisation", a.tid, a.w, t, r.w == 1, r.id)
+				}
+			}
+			seen[r.id] = append(seen[r.id], acc{t, r.w == 1})
+		}
+		count[t]++
+		h := fnv.New64a()
+		fmt.Fprint(h, rh[t], r.id, g)
+		rh[t] = h.Sum64()
+		last = t
+		waitFor = 1
+		cur = states[t] // the granted thread's private map-order state
+		grant[t] <- struct{}{}
+	}
+	cur = NewState(nil)
+	return res
 }
